@@ -136,6 +136,91 @@ def run_c16(ctx):
     })
 
 
+def _pattern_cases(ctx, n):
+    import patgen
+    rng = random.Random(ctx.seed * 31 + 6)
+    cases, seen = [], set()
+    # matching!() on methods of arity 0..3 must accept everything: the empty pattern is always included
+    tries = 0
+    while len(cases) < n and tries < n * 40:
+        tries += 1
+        c = patgen.gen_case(rng)
+        if patgen.supported(c) is not None or c.key() in seen:
+            continue
+        seen.add(c.key())
+        cases.append(c)
+    return cases
+
+
+def _run_patterns(ctx, n):
+    import patgen
+    cases = _pattern_cases(ctx, n)
+    modules, exps = [], {}
+    for i, c in enumerate(cases):
+        text, exp = patgen.render_case(c, i)
+        modules.append((i, text))
+        exps[i] = exp
+    events, errors, st = engine_b.build_and_run(
+        ctx, "patterns", modules, per_crate=40, main_extra="mod prelude;",
+        extra_files={"prelude.rs": "#![allow(dead_code)]\n" + patgen.PRELUDE})
+    return cases, exps, events, errors, st
+
+
+PAT_BUDGET = {"quick": 400, "thorough": 6000}
+
+
+def run_c06(ctx):
+    import patgen
+    ctx.level = "translation_validation"
+    cases, exps, events, errors, st = _run_patterns(ctx, PAT_BUDGET[ctx.tier])
+    disagreements = 0
+    evaluations = 0
+    feats = {}
+    for i, c in enumerate(cases):
+        if i in errors:
+            ctx.violation(f"patgen:expansion-error:{c.key()}", {
+                "what": "a matching! invocation of the calibrated grammar no longer compiles",
+                "at": f"pattern {i}", "case": c.matching_src(), "expected": "compiles",
+                "observed": "; ".join(errors[i])[:800]})
+            continue
+        why, oracle_disagrees = patgen.check_bits(exps[i], events.get(i, []))
+        evaluations += exps[i]["tuples"] * 2
+        if oracle_disagrees:
+            disagreements += 1
+            ctx.inconclusive.append(f"the two independent oracles (generator evaluator, rustc match) disagree on "
+                                    f"matching!({c.matching_src()}): my oracle is wrong, not unimock")
+            continue
+        if why:
+            ctx.violation(f"patgen:{c.key()}", {"what": why, "at": f"pattern {i}",
+                                                "case": f"matching!({c.matching_src()}) on ({', '.join(c.types)})",
+                                                "expected": exps[i]["bits"], "observed": json.dumps(events.get(i, []))[:600]})
+        for k in ([f"arity_{len(c.types)}", f"alts_{len(c.alts)}", "guard" if c.guard else "no_guard"]
+                  + [f"type_{t}" for t in set(c.types)]
+                  + (["cmp"] if any(p.cmp for a in c.alts for p in a) else [])
+                  + (["guard_with_cmp"] if c.guard and any(p.cmp for a in c.alts for p in a) else [])):
+            feats[k] = feats.get(k, 0) + 1
+    for k in ["arity_0", "arity_1", "arity_2", "arity_3", "alts_2", "guard", "cmp", "guard_with_cmp"] + ["type_" + t for t in patgen.TYPES]:
+        ctx.require(feats.get(k, 0) > 0, f"no pattern case with {k}")
+    ctx.coverage.update({
+        "programs": len(cases),
+        "disagreements_checked": disagreements,
+        "evaluations": evaluations,
+        "distinct_nontrivial": len({c.key() for c in cases if c.types}),
+        "rule": "a program is one generated matching! invocation (literals, ranges, wildcards, bindings, @, or-patterns, "
+                "tuple/struct/enum/Option patterns, slice patterns with rest, string literals against &str/String/"
+                "newtype, eq!/ne!, up to two top-level alternatives, guards over bindings incl. ||) on a method of "
+                "arity 0-3 over 11 argument types; it is evaluated on EVERY tuple of the finite domain (4-5 values per "
+                "argument) in unordered (diagnostics off) and ordered (diagnostics on) mode and compared with the "
+                "generator's evaluation of the pattern; a hand-shaped Rust match compiled next to it must agree with "
+                "the generator (else the case is discarded as an oracle disagreement). evaluations = tuples x 2 modes.",
+        "samples": [f"matching!({c.matching_src()}) on ({', '.join(c.types)})" for c in cases[:4]],
+        "features": feats, "compile_errors": len(errors), **st,
+        "exhaustive": False,
+    })
+    ctx.assumptions += ["the argument domains are exhaustive per case, the set of patterns is sampled",
+                        "calibration: <= 2 top-level alternatives (3+ do not parse in the pinned macro)"]
+
+
 def dynmock_stage(ctx, cases):
     """Engine A histories (fall-through table with default bodies and real functions), judged by Spec-M;
     discrepancies tagged with this property are reported."""
@@ -161,4 +246,6 @@ def run(ctx):
     if ctx.prop == "C16":
         run_c16(ctx)
         return dynmock_stage(ctx, 200_000 if ctx.tier == "quick" else 4_000_000)
+    if ctx.prop == "C06":
+        return run_c06(ctx)
     raise common.Inconclusive(f"no shapegen workload for {ctx.prop}")
